@@ -135,6 +135,11 @@ struct Case {
     attempted: BTreeMap<u8, BTreeSet<Vec<u8>>>,
     /// was the most recent removal of an existing head a self-removal (process removes the head it added in this operation)?
     last_rm_self: Option<bool>,
+    /// number of events so far / event number at which each process started its current operation
+    seq: usize,
+    op_start: Vec<usize>,
+    /// who removed a head last: name -> (process, event number, the head that process had added in that operation)
+    removed_by: HashMap<String, (usize, usize, Option<String>)>,
     seq_expect: BTreeMap<u8, Vec<u8>>,
     failed: Option<(String, String)>,
     diverged: bool,
@@ -149,7 +154,7 @@ impl Case {
         let stores = (0..np).map(|_| Arc::new(TableStore::load(dir.clone(), KEY_SIZE))).collect();
         Case { nkeys, dir: dir.clone(), sched: Sched::new(np, "table."), stores, held: vec![None; np], cur_op: vec![None; np],
                last_read: vec![vec![]; np], added: vec![None; np], base_of_save: vec![None; np], order: vec![],
-               loader: Loader::new(&dir), lock_holder: None, req: vec![], ans: vec![], saved: BTreeMap::new(), attempted: BTreeMap::new(), last_rm_self: None,
+               loader: Loader::new(&dir), lock_holder: None, req: vec![], ans: vec![], saved: BTreeMap::new(), attempted: BTreeMap::new(), last_rm_self: None, seq: 0, op_start: vec![0; np], removed_by: HashMap::new(),
                seq_expect: BTreeMap::new(), failed: None, diverged: false, squashed: false, max_heads: 0 }
     }
 
@@ -180,16 +185,23 @@ impl Case {
         let missing: Vec<u8> = self.saved.keys().copied().filter(|k| !heads.iter().any(|h| h.get_value(&key_bytes(*k)).is_some())).collect();
         if !missing.is_empty() {
             let _ = &by;
-            let sig = match self.last_rm_self {
-                Some(true) => "stacked-table:merged-head-removed-when-name-collides",
-                Some(false) => "stacked-table:crossing-saves-remove-each-others-head",
-                None => "stacked-table:entry-lost",
-            };
+            let sig = self.loss_signature();
             self.fail(sig, format!("after {last_event}: keys {missing:?} of completed saves are in no head ({} heads)", heads.len()));
         }
     }
 
+    /// Classifies an entry loss by the most recent abnormal removal (None = unexplained).
+    fn loss_signature(&self) -> &'static str {
+        match self.last_rm_self {
+            Some(true) => "stacked-table:merged-head-removed-when-name-collides",
+            Some(false) => "stacked-table:crossing-saves-remove-each-others-head",
+            None => "stacked-table:entry-lost",
+        }
+    }
+
     fn start(&mut self, pid: usize, op: Op, fresh_handle: bool) {
+        self.seq += 1;
+        self.op_start[pid] = self.seq;
         if fresh_handle { self.stores[pid] = Arc::new(TableStore::load(self.dir.clone(), KEY_SIZE)); }
         let store = self.stores[pid].clone();
         let held = self.held[pid].clone();
@@ -239,7 +251,28 @@ impl Case {
             self.lock_holder = Some(pid);
         }
         if kind == "table.add-head" { self.added[pid] = Some(detail.clone()); }
-        if kind == "table.remove-head" && self.order.contains(&detail) { self.last_rm_self = Some(self.added[pid].as_deref() == Some(detail.as_str())); }
+        self.seq += 1;
+        if kind == "table.remove-head" && self.order.contains(&detail) {
+            // abnormal removals:
+            //  * F8 class: the process removes the very head it added in this operation;
+            //  * crossing class: the head N this process added has meanwhile been removed by an overlapping
+            //    operation of another process q whose own new head is exactly the head X removed now
+            //    (the two results are each other's superseded head).
+            // Any other removal is normal: the remover's own new head is still there and covers X.
+            let own = self.added[pid].clone();
+            if own.as_deref() == Some(detail.as_str()) {
+                self.last_rm_self = Some(true);
+            } else if let Some(n) = &own {
+                if !self.order.contains(n) {
+                    if let Some((q, when, q_added)) = self.removed_by.get(n) {
+                        if *q != pid && *when > self.op_start[pid] && q_added.as_deref() == Some(detail.as_str()) {
+                            self.last_rm_self = Some(false);
+                        }
+                    }
+                }
+            }
+            self.removed_by.insert(detail.clone(), (pid, self.seq, own));
+        }
         let st = self.sched.step(pid);
         let heads = self.observe();
         let k = match kind {
@@ -428,7 +461,7 @@ fn run_case(out: &mut Out, r: &mut Rng, mode: Mode, np: usize, nkeys: u8, nops: 
             for (k, _) in &c.saved.clone() {
                 let vals = c.attempted.get(k).cloned().unwrap_or_default();
                 match got.get(k) {
-                    None => { let sig = match c.last_rm_self { Some(true) => "stacked-table:merged-head-removed-when-name-collides", Some(false) => "stacked-table:crossing-saves-remove-each-others-head", None => "stacked-table:entry-lost" };
+                    None => { let sig = c.loss_signature();
                         c.fail(sig, format!("fresh load: key {k} of a completed save is missing")); break; }
                     Some(v) if !vals.contains(v) => { c.fail("stacked-table:wrong-value", format!("fresh load: key {k} has value {v:?}, saves recorded {vals:?}")); break; }
                     _ => {}
